@@ -314,6 +314,26 @@ func runC15(c *Ctx) {
 		c.count("root_" + t.kind)
 		c.count(fmt.Sprintf("reset_%v", useReset))
 	}
+	// every byte value as a string and as a member name
+	for b := 0; b < 256; b++ {
+		ch := string([]byte{byte(b)})
+		for _, t := range []*jnode{{kind: "str", s: ch}, {kind: "obj", kids: []*jnode{{kind: "str", s: "x" + ch + ch}}, names: []string{ch + "n"}}} {
+			var o plenccodec.JSONOutput
+			t.emit(&o)
+			out := o.Done()
+			desc := fmt.Sprintf("byte sweep 0x%02x -> %q", b, trunc(string(out), 120))
+			dec := json.NewDecoder(bytes.NewReader(out))
+			dec.UseNumber()
+			var parsed any
+			if err := dec.Decode(&parsed); err != nil {
+				c.native = append(c.native, NativeViolation{Case: desc, What: "output is not valid JSON: " + err.Error(), Class: "invalid-json"})
+			} else if !sameJSON(t.expect(), parsed) {
+				c.native = append(c.native, NativeViolation{Case: desc, What: fmt.Sprintf("parse differs from the call tree: %v vs %v", parsed, t.expect()), Class: "wrong-json"})
+			}
+			c.add(fmt.Sprintf("K15Tree %s %s", t.coqTree(), coqBytes(out)), desc, "byte-sweep/"+t.kind, true)
+			c.count("byte_sweep")
+		}
+	}
 	// numbers at every place where a formatter could change its mind: powers of two
 	// (the int64/uint64 limits among them) and their neighbours, powers of ten around
 	// the exponent-notation thresholds, as float64 and - when exactly representable -
